@@ -3,22 +3,41 @@
 // decision, padding maxima, low-entropy send decision).
 //
 // Case kinds (cases.txt) and what the implementation printed (impl.txt):
-//   O seed tag n v          oracle table: v = rng.FixedInt(n, "<seed>:<field>")            impl "-"
-//   G hostseed <pattern>    trafficpattern.NewConfig                                       "ERR k" | "OK <effective pattern> V k"
-//   R size min max          cipher.nonceRewriteLen, 64 calls (min/max as set on the cipher) sorted distinct lengths
-//   U implicit all k        which of k consecutive newNonce calls applied the pattern      k bits
-//   K type nhex hex...      class of the prefix newNonce produces (min=max=12)             0 none 1 printable 2 subset 3 fixed
-//   P mtu stream frag existing pos has <pattern>   maxPaddingSizeWithTrafficPattern        number
-//   E client used has <pattern>                    Session.lowEntropySendConfig            "mode rotation send"
+//
+//	O seed tag n v          oracle table: v = rng.FixedInt(n, "<seed>:<field>")            impl "-"
+//	G hostseed <pattern>    trafficpattern.NewConfig                                       "ERR k" | "OK <effective pattern> V k"
+//	R size min max          cipher.nonceRewriteLen, 64 calls (min/max as set on the cipher) sorted distinct lengths
+//	U implicit all k        which of k consecutive newNonce calls applied the pattern      k bits
+//	K type nhex hex...      class of the prefix newNonce produces (min=max=12)             0 none 1 printable 2 subset 3 fixed
+//	P mtu stream frag existing pos has <pattern>   maxPaddingSizeWithTrafficPattern        number
+//	E client used has <pattern>                    Session.lowEntropySendConfig            "mode rotation send"
+//
+// History independence (oracle only, no model line): the contract of rng.FixedInt - docs/traffic-pattern.md: "with the same
+// seed and unlockAll values, the generated implicit traffic patterns do not change", "if seed is provided, the generated
+// patterns are stable"; rng.go: FixedInt "stays the same if the same hint is provided" (no version, no host), the hint cache
+// only "accelerates look up" - is: FixedInt(n, hint) is a pure function of (n, hint), namely
+// (big-endian uint32 of sha256(hint)[:4], top bit cleared) mod n, whatever was asked before in the process.  The driver
+// (1) checks every O value against that derivation, asking each hint with its n in ascending or descending order,
+// (2) evaluates NewConfig inputs that share hints (unlockAll true/false, explicit/implicit minLen) in both orders in
+//
+//	FRESH child processes (this binary re-executed with the argument "c16fresh") and alone, and in this process,
+//	and requires equal effective patterns for equal inputs,
+//
+// (3) re-evaluates a sample of the G cases in a fresh child process each.
 // <pattern> = seed unlock T|t enable sleep N|n type all min max nhex hex... P|p mid end L|l mode rot
 // (upper-case letter: sub-message present; "-" = field unset; hex strings as hex of their bytes).
 package main
 
 import (
+	"bufio"
 	"bytes"
+	"crypto/sha256"
+	"encoding/binary"
 	"encoding/hex"
 	"fmt"
 	"math"
+	"os"
+	"os/exec"
 	"sort"
 	"strings"
 
@@ -124,10 +143,112 @@ func errCode(err error) int {
 	return 9
 }
 
+// shaFixedInt is the contract of rng.FixedInt written down independently: a pure function of (n, hint).
+func shaFixedInt(n int, hint string) int {
+	if n <= 0 {
+		return 0
+	}
+	b := sha256.Sum256([]byte(hint))
+	b[0] &= 0x7f
+	return int(binary.BigEndian.Uint32(b[:4])) % n
+}
+
+// evalTokens is what one NewConfig evaluation looks like from outside.
+func evalTokens(p *pb.TrafficPattern) string {
+	cfg, err := trafficpattern.NewConfig(p)
+	if err != nil {
+		return fmt.Sprintf("ERR %d", errCode(err))
+	}
+	return fmt.Sprintf("OK %s V %d", patTokens(cfg.Effective()), errCode(trafficpattern.Validate(cfg.Effective())))
+}
+
+// freshChild is the body of the re-executed driver ("c16fresh"): one base64 pattern per stdin line, evaluated in the
+// order given in a process that has not called rng.FixedInt before; prints one result line per input.
+func freshChild() {
+	sc := bufio.NewScanner(os.Stdin)
+	sc.Buffer(make([]byte, 1<<20), 1<<20)
+	w := bufio.NewWriter(os.Stdout)
+	defer w.Flush()
+	for sc.Scan() {
+		p, err := trafficpattern.Decode(strings.TrimSpace(sc.Text()))
+		if err != nil {
+			fmt.Fprintln(w, "DECODE-ERROR")
+			continue
+		}
+		fmt.Fprintln(w, evalTokens(p))
+	}
+}
+
+// freshEval evaluates the patterns, in this order, in one fresh process.
+func freshEval(ps []*pb.TrafficPattern) []string {
+	exe, err := os.Executable()
+	if err != nil {
+		panic(err)
+	}
+	var in bytes.Buffer
+	for _, p := range ps {
+		in.WriteString(trafficpattern.Encode(p) + "\n")
+	}
+	cmd := exec.Command(exe, "c16fresh")
+	cmd.Stdin = &in
+	out, err := cmd.Output()
+	if err != nil {
+		panic(fmt.Errorf("fresh child failed: %v", err))
+	}
+	lines := strings.Split(strings.TrimRight(string(out), "\n"), "\n")
+	if len(lines) != len(ps) {
+		panic(fmt.Sprintf("fresh child printed %d lines for %d inputs", len(lines), len(ps)))
+	}
+	return lines
+}
+
+func encAll(ps []*pb.TrafficPattern) []string {
+	var out []string
+	for _, p := range ps {
+		out = append(out, trafficpattern.Encode(p)+" = "+patTokens(p))
+	}
+	return out
+}
+
+// historyGroup: a and b share rng hints.  Evaluates [a], [b], [a,b], [b,a] in fresh processes and (a,b | b,a by parity)
+// in this process; every evaluation of the same input must give the same effective pattern, and that pattern must validate.
+func (d *drv) historyGroup(a, b *pb.TrafficPattern, kind string, inProcAFirst bool) {
+	r := d.r
+	r.Count("history/" + kind)
+	r.Distinct("history/" + kind + "/" + explicitMask(a) + "/" + explicitMask(b))
+	alone := []string{freshEval([]*pb.TrafficPattern{a})[0], freshEval([]*pb.TrafficPattern{b})[0]}
+	ab := freshEval([]*pb.TrafficPattern{a, b})
+	ba := freshEval([]*pb.TrafficPattern{b, a})
+	var ipa, ipb string
+	if inProcAFirst {
+		ipa, ipb = evalTokens(proto.Clone(a).(*pb.TrafficPattern)), evalTokens(proto.Clone(b).(*pb.TrafficPattern))
+	} else {
+		ipb, ipa = evalTokens(proto.Clone(b).(*pb.TrafficPattern)), evalTokens(proto.Clone(a).(*pb.TrafficPattern))
+	}
+	ipa2 := evalTokens(proto.Clone(a).(*pb.TrafficPattern))
+	type obs struct{ where, got string }
+	check := func(which string, p *pb.TrafficPattern, ref string, others []obs) {
+		for _, o := range others {
+			if o.got != ref {
+				r.Fail("effective-pattern-depends-on-evaluation-history",
+					fmt.Sprintf("%s: evaluated alone in a fresh process: %q; %s: %q (inputs that share the seed were evaluated before it)", which, ref, o.where, o.got),
+					map[string]interface{}{"kind": kind, "input": encAll([]*pb.TrafficPattern{p}), "group_in_order_a_b": encAll([]*pb.TrafficPattern{a, b}), "differs_in": o.where})
+				return
+			}
+		}
+		if !strings.HasSuffix(ref, " V 0") {
+			r.Fail("effective-pattern-fails-validation", "fresh process: "+ref, replayCase(p))
+		}
+	}
+	check("a", a, alone[0], []obs{{"fresh process, order a,b", ab[0]}, {"fresh process, order b,a", ba[1]}, {"this process", ipa}, {"this process, again", ipa2}})
+	check("b", b, alone[1], []obs{{"fresh process, order a,b", ab[1]}, {"fresh process, order b,a", ba[0]}, {"this process", ipb}})
+}
+
 type drv struct {
 	r        *vh.Run
 	hostSeed int
 	seenSeed map[int]bool
+	nValid   int
 }
 
 func (d *drv) emitOracle(seed int) {
@@ -136,8 +257,20 @@ func (d *drv) emitOracle(seed int) {
 	}
 	d.seenSeed[seed] = true
 	for ti, name := range tagNames {
-		for _, n := range oracleNs {
-			v := rng.FixedInt(n, fmt.Sprintf("%d:%s", seed, name))
+		// the same hint is asked with 16 different n: ascending for some (seed, field), descending for others
+		ns := append([]int(nil), oracleNs...)
+		if (len(d.seenSeed)+ti)%2 == 0 {
+			sort.Sort(sort.Reverse(sort.IntSlice(ns)))
+		}
+		prev := 0
+		for _, n := range ns {
+			hint := fmt.Sprintf("%d:%s", seed, name)
+			v := rng.FixedInt(n, hint)
+			if want := shaFixedInt(n, hint); v != want {
+				d.r.Fail("fixedint-depends-on-call-history", fmt.Sprintf("rng.FixedInt(%d, %q) = %d, the documented derivation (sha256 of the hint, 31 bits, mod n) gives %d; the previous call with this hint used n=%d", n, hint, v, want, prev),
+					map[string]interface{}{"n": n, "hint": hint, "previous_n_same_hint": prev, "got": v, "want": want})
+			}
+			prev = n
 			if v < 0 || v >= n {
 				d.r.Fail("fixedint-out-of-range", fmt.Sprintf("rng.FixedInt(%d, %d:%s) = %d", n, seed, name, v), map[string]interface{}{"n": n, "seed": seed, "field": name})
 			}
@@ -352,6 +485,19 @@ func (d *drv) genCase(p *pb.TrafficPattern, wantValid bool, kind string) {
 		}
 		r.Fail(sig, "Validate(Effective()) fails: "+verr.Error(), replayCase(before))
 	}
+	// a sample is evaluated again in a fresh process (no earlier rng.FixedInt call): same input, same effective pattern
+	d.nValid++
+	every := 1000
+	if r.Thorough() {
+		every = 2000
+	}
+	if d.nValid%every == 1 {
+		r.Count("fresh-process-sample")
+		if got, here := freshEval([]*pb.TrafficPattern{before})[0], fmt.Sprintf("OK %s V %d", patTokens(eff), errCode(verr)); got != here {
+			r.Fail("effective-pattern-depends-on-evaluation-history", fmt.Sprintf("this process (after other evaluations): %q; fresh process: %q", here, got),
+				map[string]interface{}{"kind": "fresh-process-sample", "input": encAll([]*pb.TrafficPattern{before})})
+		}
+	}
 	cfg2, err2 := trafficpattern.NewConfig(proto.Clone(before).(*pb.TrafficPattern))
 	if err2 != nil || !proto.Equal(cfg2.Effective(), eff) {
 		r.Fail("generation-not-deterministic", "two NewConfig calls on equal messages give different effective patterns", replayCase(before))
@@ -531,6 +677,10 @@ func isPrintable(b byte) bool { return b >= 0x20 && b <= 0x7e }
 const common64 = "ABCDEFGHIJKLMNOPQRSTUVWXYZabcdefghijklmnopqrstuvwxyz0123456789"
 
 func main() {
+	if len(os.Args) > 1 && os.Args[1] == "c16fresh" {
+		freshChild()
+		return
+	}
 	r := vh.Start("c16")
 	defer r.Finish()
 	r.Rep.Rule = "G: every subset of the 10 optional leaf fields + custom hex strings (2^11 masks) x value variants (variant 0: first boundary value of every list and maxLen=3, i.e. below every locked implicit minLen; others random from the boundary lists 0/1/max/max-1, minLen=maxLen, 12-byte and several prefixes) x seeds (unset, 0, 1, -1, int32 extremes, random) x unlockAll (unset/false/true) x nil-vs-empty sub-messages, plus a malformed stream (out-of-range, min>max, bad hex; 1-2 faults per message). R/U/K/P/E: nonce rewrite length on a (min,max,size) grid incl. unvalidated values, apply decision, prefix class, padding maxima on an (mtu, transport, fragment, existing, position) grid x patterns, low-entropy decision on role x clientUsed x patterns. Non-trivial/distinct = distinct (outcome, explicit-field mask, unlockAll, seed set) for G and distinct argument classes for the others."
@@ -539,6 +689,24 @@ func main() {
 	rg := r.Rng
 	bp := func(b bool) *bool { return &b }
 	ip := func(i int32) *int32 { return &i }
+
+	// ---------- history independence (before anything else touched rng.FixedInt in this process)
+	ngroups := 4
+	if r.Thorough() {
+		ngroups = 24
+	}
+	for i := 0; i < ngroups; i++ {
+		s := ip(int32(700000 + 4*i))
+		// unlockAll true / false share "<seed>:nonce.type" and "<seed>:nonce.minLen" with different ranges
+		d.historyGroup(&pb.TrafficPattern{Seed: s, UnlockAll: bp(true)}, &pb.TrafficPattern{Seed: s, UnlockAll: bp(false)}, "unlock-true-false", i%2 == 0)
+		// explicit minLen changes the range asked for "<seed>:nonce.maxLen"
+		s = ip(int32(700001 + 4*i))
+		u := bp(i%3 == 0)
+		d.historyGroup(&pb.TrafficPattern{Seed: s, UnlockAll: u, Nonce: &pb.NoncePattern{MinLen: ip(int32(i % 13))}}, &pb.TrafficPattern{Seed: s, UnlockAll: u}, "explicit-implicit-minlen", i%2 == 1)
+		// explicit maxLen (clamp) vs implicit, and unset unlockAll vs true
+		s = ip(int32(700002 + 4*i))
+		d.historyGroup(&pb.TrafficPattern{Seed: s, Nonce: &pb.NoncePattern{MaxLen: ip(int32(i % 13))}}, &pb.TrafficPattern{Seed: s, UnlockAll: bp(true)}, "explicit-maxlen-locked-vs-unlocked", i%2 == 0)
+	}
 
 	// ---------- corpus: the C16 witness first (explicit maxLen below the implicit minLen)
 	d.genCase(&pb.TrafficPattern{Seed: ip(1), Nonce: &pb.NoncePattern{MaxLen: ip(3)}}, true, "corpus")
@@ -853,8 +1021,8 @@ func main() {
 	}
 	r.Count("low-entropy-decision")
 	r.Rep.Notes = map[string]string{
-		"host_seed":   fmt.Sprint(d.hostSeed),
-		"round_trip":  "Decode(Encode(p)) == p is a test of google.golang.org/protobuf + encoding/base64 (library round trip): tested on every valid original and effective pattern, not proved",
+		"host_seed":    fmt.Sprint(d.hostSeed),
+		"round_trip":   "Decode(Encode(p)) == p is a test of google.golang.org/protobuf + encoding/base64 (library round trip): tested on every valid original and effective pattern, not proved",
 		"oracle_seeds": fmt.Sprint(len(d.seenSeed)),
 	}
 }
